@@ -548,9 +548,9 @@ pub fn run(ctx: &mut Ctx) {
     // "compiled_big" (thorough only, minutes per case): tables of up to 16 rows, other cuckoo table sizes
     // "compiled_dense": at least 512 rows in the second table (the other cuckoo sizing regime)
     let phases = [
-        ("compiled", ctx.q(48u64, 2400), ctx.q(4usize, 8)),
+        ("compiled", ctx.q(32u64, 2400), ctx.q(4usize, 8)),
         ("compiled_big", ctx.q(0, 48), 16),
-        ("compiled_dense", ctx.q(32, 192), 512),
+        ("compiled_dense", ctx.q(12, 192), 512),
     ];
     for (phase, total, mr) in phases {
     ctx.cases(phase, total, |ctx, idx| {
@@ -617,7 +617,7 @@ pub fn run(ctx: &mut Ctx) {
                    "a": value_json(&case.a.value()), "b": value_json(&case.b.value())})
         };
         // every execution draws fresh PRF keys, hence a fresh cuckoo placement of the second table
-        for _ in 0..(if dense { 2 } else { 4 }) {
+        for _ in 0..(if dense { 1 } else { 4 }) {
             let ins = inputs_single(&mut ctx.rng, &cfg, &types, &inputs);
             match eval_single(&compiled, ins, ctx.rng.seed16()) {
                 Ok(v) => {
@@ -643,7 +643,7 @@ pub fn run(ctx: &mut Ctx) {
             }
         }
         for junk in [Fill::Zeros, Fill::Uniform] {
-            if dense && junk == Fill::Zeros {
+            if dense && (ctx.quick() || junk == Fill::Zeros) {
                 continue;
             }
             let ins = inputs_party(&mut ctx.rng, &cfg, &types, &inputs, junk);
